@@ -43,6 +43,10 @@ def symChar (d : Nat) : Char := Char.ofNat (33 + d)
 
 def symbol (n : Nat) : String := String.ofList ((symDigits n).map symChar)
 
+/-- the same identifier code as the list of its character codes (what `Gen/VcdSymGen.lean`, generated from the
+    Python source of `_gen_vcd_symbol`, computes; `Props/C16Gen.lean`) -/
+def symCodes (n : Nat) : List Nat := (symDigits n).map (33 + ·)
+
 /-! ### events -/
 
 inductive Ev where
